@@ -261,6 +261,13 @@ class FuncFacts:
         self.order: List[StmtInfo] = []
         self.exit_envs: List[Tuple[ast.stmt, Dict[str, ast.AST], List[Atom]]] = []
         env: Dict[str, ast.AST] = dict(params_env or {})
+        # private module-level numeric constants (`_UNSET_RHO = -1.0`, `_GROWTH = 10.0`) stand for their literal
+        try:
+            for k_, v_ in _module_literals(fi.module).items():
+                if k_ not in env and k_ not in fi.params and not any(isinstance(n_, ast.Name) and n_.id == k_ and isinstance(n_.ctx, ast.Store) for n_ in ast.walk(fi.node)):
+                    env[k_] = v_
+        except Exception:
+            pass
         self.const_flags = self._find_const_flags(fi.node)
         self._walk_block(fi.node.body, env, [], (), (), ())
 
@@ -497,8 +504,15 @@ class FuncFacts:
         if isinstance(stmt, ast.If):
             pos = self._resolved_atoms(stmt.test, env, True)
             neg = self._resolved_atoms(stmt.test, env, False)
-            r1 = self._walk_block(stmt.body, env, facts + pos, loops, tries, handlers)
-            r2 = self._walk_block(stmt.orelse, env, facts + neg, loops, tries, handlers) if stmt.orelse else (dict(env), facts + neg)
+            env1, env2 = _narrow_none(env, stmt.test, True), _narrow_none(env, stmt.test, False)
+            if env1 is not env:
+                pn = [a for a in self._resolved_atoms(stmt.test, env1, True) if not (a[0] == "isnot" and a[2] == "None" and a not in pos)]
+                pos = pn + [a for a in pos if a not in pn and PHI not in a[1] and PHI not in (a[2] or "")]
+            if env2 is not env:
+                nn = [a for a in self._resolved_atoms(stmt.test, env2, False) if not (a[0] == "isnot" and a[2] == "None" and a not in neg)]
+                neg = nn + [a for a in neg if a not in nn and PHI not in a[1] and PHI not in (a[2] or "")]
+            r1 = self._walk_block(stmt.body, env1, facts + pos, loops, tries, handlers)
+            r2 = self._walk_block(stmt.orelse, env2, facts + neg, loops, tries, handlers) if stmt.orelse else (dict(env2), facts + neg)
             if r1 is None and r2 is None:
                 return None
             if r1 is None:
@@ -506,6 +520,14 @@ class FuncFacts:
             if r2 is None:
                 return r1[0], r1[1]
             merged = self._merge([r1[0], r2[0]], env)
+            # `v = None` before, `v = X` in one branch only: `v is not None` later means that branch ran, i.e. its condition held
+            for k_, mv in merged.items():
+                a_, b_ = r1[0].get(k_), r2[0].get(k_)
+                if a_ is None or b_ is None:
+                    continue
+                na, nb = isinstance(a_, ast.Constant) and a_.value is None, isinstance(b_, ast.Constant) and b_.value is None
+                if na != nb and isinstance(mv, ast.Call) and isinstance(mv.func, ast.Name) and mv.func.id == PHI:
+                    self.__dict__.setdefault("phi_cond", {})[unparse(mv)] = list(neg if na else pos)
             common = [f for f in r1[1] if f in r2[1]]
             return merged, common
         if isinstance(stmt, (ast.For, ast.While)):
@@ -621,6 +643,17 @@ class FuncFacts:
 
     def _resolved_atoms(self, test, env, positive) -> List[Atom]:
         out = atoms_of(resolve(test, env), positive)
+        pc = self.__dict__.get("phi_cond")
+        if pc:
+            extra = []
+            kept = []
+            for a in out:
+                if a[0] == "isnot" and a[2] == "None" and a[1] in pc:
+                    # replaced by what it stands for: the condition of the branch that bound the non-None value
+                    extra += [f for f in pc[a[1]] if f not in out and f not in extra]
+                else:
+                    kept.append(a)
+            out = kept + extra
         # a flag that is only ever bound to literal True / False: `flag` being true implies everything that held at EVERY
         # place where it is set to True (the conditions those assignments are nested in) - and dually for false
         t, pos = test, positive
@@ -697,6 +730,63 @@ def _is_true(test) -> bool:
 
 
 _CACHE: Dict[int, FuncFacts] = {}
+
+
+def _narrow_none(env: Dict[str, ast.AST], test: ast.AST, positive: bool) -> Dict[str, ast.AST]:
+    """inside `if v is not None [and ..]:` (or the else of `if v is None [or ..]:`) a local whose value is `__phi__(X, None)` is X"""
+    names = []
+
+    def collect(t, pos):
+        if isinstance(t, ast.UnaryOp) and isinstance(t.op, ast.Not):
+            collect(t.operand, not pos)
+        elif isinstance(t, ast.BoolOp) and ((isinstance(t.op, ast.And) and pos) or (isinstance(t.op, ast.Or) and not pos)):
+            for v in t.values:
+                collect(v, pos)
+        elif isinstance(t, ast.Compare) and len(t.ops) == 1 and isinstance(t.left, ast.Name) and isinstance(t.comparators[0], ast.Constant) and t.comparators[0].value is None:
+            if (isinstance(t.ops[0], ast.IsNot) and pos) or (isinstance(t.ops[0], ast.Is) and not pos):
+                names.append(t.left.id)
+    collect(test, positive)
+    if not names:
+        return env
+    out = dict(env)
+    for nm in names:
+        v = out.get(nm)
+        if isinstance(v, ast.Call) and isinstance(v.func, ast.Name) and v.func.id == PHI:
+            rest = [a for a in v.args if not (isinstance(a, ast.Constant) and a.value is None)]
+            if len(rest) == 1 and len(rest) < len(v.args):
+                out[nm] = rest[0]
+            elif 1 < len(rest) < len(v.args):
+                out[nm] = mk_call(PHI, rest)
+    return out
+
+
+_MODLIT: Dict[int, Dict[str, ast.AST]] = {}
+
+
+def _module_literals(mod) -> Dict[str, ast.AST]:
+    """module-level names that start with an underscore, are bound exactly once at module level and never rebound anywhere in the
+    module, to a numeric literal (possibly negated)"""
+    k = id(mod)
+    if k in _MODLIT:
+        return _MODLIT[k]
+    out: Dict[str, ast.AST] = {}
+    stores: Dict[str, int] = {}
+    for n in ast.walk(mod.tree):
+        if isinstance(n, ast.Name) and isinstance(n.ctx, ast.Store):
+            stores[n.id] = stores.get(n.id, 0) + 1
+        if isinstance(n, ast.Global):
+            for nm in n.names:
+                stores[nm] = stores.get(nm, 0) + 2
+    for st in mod.tree.body:
+        v = st.value if isinstance(st, (ast.Assign, ast.AnnAssign)) else None
+        t = (st.targets[0] if isinstance(st, ast.Assign) and len(st.targets) == 1 else getattr(st, "target", None)) if v is not None else None
+        if not (isinstance(t, ast.Name) and t.id.startswith("_") and stores.get(t.id) == 1):
+            continue
+        lit = v.operand if isinstance(v, ast.UnaryOp) and isinstance(v.op, (ast.USub, ast.UAdd)) else v
+        if isinstance(lit, ast.Constant) and isinstance(lit.value, (int, float)) and not isinstance(lit.value, bool):
+            out[t.id] = v
+    _MODLIT[k] = out
+    return out
 
 
 def facts_for(fi: FuncInfo) -> FuncFacts:
